@@ -85,6 +85,11 @@ CFGS = [
      "wallThicknessBounds": [0.1, 4.0]},
     {"spatialGridSize": 30, "momentumGridSize": 5, "errTol": 1e-3, "pressRelErrTol": 0.1, "maxIterations": 20,
      "wallThicknessBounds": [4.2, 100.0]},
+    # ... and on the wall offsets (two-field models: the second wall sits ~ +0.3..0.9 widths from the first)
+    {"spatialGridSize": 30, "momentumGridSize": 5, "errTol": 1e-3, "pressRelErrTol": 0.1, "maxIterations": 20,
+     "wallOffsetBounds": [-10.0, 0.4]},
+    {"spatialGridSize": 24, "momentumGridSize": 5, "errTol": 1e-3, "pressRelErrTol": 0.1, "maxIterations": 20,
+     "wallOffsetBounds": [-0.3, 0.3]},
     # a small budget for the pressure iteration: evaluations that run out of it are flagged by the solver
     # (logged + successWallPressure False) and a result built on such an evaluation must be an ERROR
     {"spatialGridSize": 30, "momentumGridSize": 5, "errTol": 1e-3, "pressRelErrTol": 0.1, "maxIterations": 3},
@@ -137,6 +142,14 @@ def st_history(draw, tier="quick"):
                 "basis": draw(st.sampled_from(["Chebyshev", "Cardinal"]))}
         s0 = dict(s0, offEq=True)
         s1 = dict(s1, offEq=draw(st.booleans()))
+    same_tn = draw(st.sampled_from([False, False, True]))
+    if same_tn:
+        # the second point is the same model with fewer light degrees of freedom (coefficient of -a T^4): Tc and the
+        # nucleation temperature are IDENTICAL, alpha_n / vJ / the wall velocity are not - a parameter updated in place
+        # between two analyses at one temperature
+        pp = dict(spec["p"])
+        pp["a"] = pp["a"] * draw(st.sampled_from([0.7, 0.85]))
+        spec2 = dict(spec, p=pp)
     n_mid = draw(st.integers(1, 3))
     ops = [["solve", 0]]
     point, conf = 0, 0
@@ -160,6 +173,14 @@ def st_history(draw, tier="quick"):
             ops.append(["solve", 1])
         elif kind == "deton":
             ops.append(["deton", 0])
+    if same_tn and ["resetup", 1] not in ops:
+        ops.append(["resetup", 1])
+        ops.append(["solve", 0])
+        point = 1
+    elif same_tn:
+        k = ops.index(["resetup", 1])
+        if ops[k + 1:k + 2] != [["solve", 0]]:
+            ops.insert(k + 1, ["solve", 0])
     if point != 0:
         ops.append(["resetup", 0])
     if conf != 0:
